@@ -289,28 +289,18 @@ def run_geometry(rep, facts):
         elif not nbad:
             rep.ok("R3.10", key, "%d path(s), %d obligation(s): invariant restored, live regions located by the new cursors" % (len(ends), n), b.loc())
     # ---- request parser: move_input ---------------------------------------------------------------------------
-    b = facts.body(RP + "::move_input")
-    it = R.Interp(facts, ["input_len"], len_of="input")
-    it.init_regions = lambda ctx, heap, env: {"rem": (heap["input_len"] - env[2], heap["input_len"])}
-    ends = it.run(b)
+    from . import compaction
+    cg = compaction.geometry(facts, _contracts())
+    b, it, ends, bad = cg["body"], cg["interp"], cg["ends"], cg["bad"]
     n, nbad = collect(it, "move_input", b)
     total += n
-    bad = []
-    for e in ends:
-        ctx, h = e.ctx, e.heap
-        il = h["input_len"]
-        if not (isinstance(il, Lin) and ctx.ge0(il) and ctx.le(il, Lin.sym("len(input)"))):
-            bad.append(("input_len may exceed the buffer on return", e.trace))
-        elif not region_at(ctx, e.regions["rem"], Lin(0), il):
-            bad.append(("the unconsumed remainder is not at the front of the buffer (bytes at [%s, %s), input_len %s)" % (e.regions["rem"] + (il,)), e.trace))
-        elif not ctx.eq(il, e.args[0]):
-            bad.append(("input_len is not the remainder's length", e.trace))
     if bad:
         rep.violation("R3.10", "move_input/postcondition", bad[0][0], b.loc(), path=bad[0][1])
     elif not ends:
         rep.undecidable("R3.10", "move_input/postcondition", "no return path interpreted", b.loc())
     elif not nbad:
-        rep.ok("R3.10", "move_input/postcondition", "%d path(s), %d obligation(s): the last rem_len bytes end up at [0, input_len)" % (len(ends), n), b.loc())
+        rep.ok("R3.10", "move_input/postcondition", "%d path(s), %d obligation(s): the last rem_len bytes end up at [0, input_len)%s"
+               % (len(ends), n, " (compaction written out in %s)" % b.npath if cg["hosted"] else ""), b.loc())
     rep.floor("R3.10", "geometry obligations", total, 13)
 
 
@@ -403,7 +393,7 @@ def run_arith(rep, facts):
         ("stream::parse", SP + "::parse", CURSORS, "buffer", {SP + "::is_record_boundary"}, None),
         ("stream::parse_payload", SP + "::parse_payload", CURSORS, "buffer", {SP + "::is_record_boundary"}, None),
         ("stream::parse_head", SP + "::parse_head", CURSORS, "buffer", {SP + "::is_record_boundary"}, None),
-        ("request::parse", RP + "::parse", ["input_len"], "input", {RP + "::move_input"}, None),
+        ("request::parse", RP + "::parse", ["input_len"], "input", {RP + "::move_input"} if facts.body(RP + "::move_input", required=False) else set(), None),
         ("SkipState::drive", RQ + "SkipState::drive", [], None, set(), None),
         ("GetValuesState::drive", RQ + "GetValuesState::drive", [], None, set(), None),
         ("ParamsState::drive", RQ + "ParamsState::drive", [], None, set(), None),
